@@ -52,6 +52,12 @@ def call_driver(case, api):
         expr = "__r[%s]" % names[0]
     elif m == ".length":
         expr = "__r.length"
+    elif m in ("replace_fnd", "replaceAll_fnd"):
+        # function replacer whose result contains dollar patterns (spec: JsString!FnReplacementD)
+        expr = ("__r.%s(%s, function (mt) { return '[$&$$$' + String.fromCharCode(96) + '$' + String.fromCharCode(39) + ']' + mt })"
+                % (m[:-4], names[0] if names else ""))
+        if not names:
+            expr = "__r.%s()" % m[:-4]
     elif m in ("replace_fn", "replaceAll_fn"):
         # function replacer supplied by the driver: "<" matched "|" position "|" string ">" (spec: JsString!FnReplacement)
         expr = ("__r.%s(%s, function (mt, pos, str) { return '<' + mt + '|' + pos + '|' + str + '>' })" % (m[:-3], names[0] if names else ""))
